@@ -71,10 +71,14 @@ Proof. unfold pad_to. rewrite app_length, repeat_length. lia. Qed.
 Lemma nth_write_bigint out idx enc k :
   nth k (write_bigint out idx enc) false =
   if Nat.leb idx k && Nat.ltb k (idx + length enc) then nth (k - idx) enc false else nth k out false.
-Proof. unfold write_bigint. rewrite nth_pad_to. apply nth_write_loop. Qed.
+Proof.
+  unfold write_bigint. destruct enc as [|e0 enc0]; [|rewrite nth_pad_to; apply nth_write_loop].
+  cbn [length]. replace (Nat.leb idx k && Nat.ltb k (idx + 0)) with false by llia. reflexivity.
+Qed.
+(* an empty value does not extend the output (F49 repaired) *)
 Lemma length_write_bigint out idx enc :
-  length (write_bigint out idx enc) = Nat.max (length out) (idx + length enc).
-Proof. unfold write_bigint. rewrite length_pad_to, length_write_loop. destruct enc; cbn [length]; lia. Qed.
+  length (write_bigint out idx enc) = match enc with [] => length out | _ :: _ => Nat.max (length out) (idx + length enc) end.
+Proof. unfold write_bigint. destruct enc; [reflexivity|]. rewrite length_pad_to, length_write_loop. cbn [length]; lia. Qed.
 
 (* ================================================================= B. bank windows *)
 Lemma ends_after_false o sz other : ends_after o sz other = false -> o + sz <= other.
@@ -231,28 +235,29 @@ Proof.
     apply Hx; [llia | left; reflexivity | llia].
 Qed.
 
-(* end of the last WRITTEN item (zero-sized ones included: write_bigint updates `len` for them too) *)
+(* end of the last WRITTEN item; a zero-sized one writes nothing and does not count (F49 repaired) *)
 Definition written_end (items : list item) : N :=
-  fold_right (fun it m => match it_off it, it_enc it with Some o, Some _ => N.max (o + it_size it) m | _, _ => m end) 0 items.
+  fold_right (fun it m => match it_off it, it_enc it with
+                          | Some o, Some _ => if 0 <? it_size it then N.max (o + it_size it) m else m
+                          | _, _ => m end) 0 items.
 
 Lemma written_end_app l x : written_end (l ++ [x]) = N.max (written_end l) (written_end [x]).
 Proof.
   induction l as [|a l IH]; cbn [app]; [unfold written_end at 2; cbn [fold_right]; llia|].
   unfold written_end in *. cbn [fold_right] in *. rewrite IH.
-  destruct (it_off a), (it_enc a), (it_off x), (it_enc x); llia.
+  destruct (it_off a), (it_enc a), (it_off x), (it_enc x); try destruct (0 <? it_size a); try destruct (0 <? it_size x); llia.
 Qed.
 
 Lemma items_end_written items :
   (forall it, In it items -> it_enc it = None -> it_size it = 0) ->
-  (forall it o enc, In it items -> it_off it = Some o -> it_enc it = Some enc -> 0 < it_size it) ->
   items_end items = written_end items.
 Proof.
-  unfold items_end, written_end, ranges. induction items as [|a l IH]; intros H0 H1; [reflexivity|].
+  unfold items_end, written_end, ranges. induction items as [|a l IH]; intros H0; [reflexivity|].
   cbn [flat_map fold_right]. rewrite fold_right_app.
-  rewrite IH; [|intros; apply H0; [right|]; assumption | intros it o enc Hin; apply (H1 it o enc); right; assumption].
+  rewrite IH; [|intros; apply H0; [right|]; assumption].
   destruct (it_off a) as [o|] eqn:Eo; cbn [fold_right fst snd]; [|destruct (it_enc a); reflexivity].
   destruct (it_enc a) as [enc|] eqn:Ee.
-  - pose proof (H1 a o enc (or_introl eq_refl) Eo Ee). replace (0 <? it_size a) with true by llia. reflexivity.
+  - reflexivity.
   - pose proof (H0 a (or_introl eq_refl) Ee) as Hz. rewrite Hz. reflexivity.
 Qed.
 
@@ -431,7 +436,10 @@ Proof.
       destruct (Nat.leb (N.to_nat (outp + pos)) k && Nat.ltb k (N.to_nat (outp + pos) + length enc)) eqn:Er.
       * unfold it. rewrite covered_one. apply orb_true_iff. right. llia.
       * rewrite (J_zero0 k Hk). reflexivity.
-    + rewrite length_write_bigint. rewrite written_end_app. unfold written_end at 2. cbn [fold_right it it_enc it_off it_size]. llia.
+    + rewrite length_write_bigint. rewrite written_end_app. unfold written_end at 2. cbn [fold_right it it_enc it_off it_size].
+      subst size. destruct enc as [|e0 enc0]; cbn [length N.of_nat].
+      * replace (0 <? 0) with false by reflexivity. llia.
+      * replace (0 <? N.pos (Pos.of_succ_nat (length enc0))) with true by llia. llia.
     + intros x o enc1 Hx Hox Hex. apply in_app_iff in Hx. destruct Hx as [Hx|[<-|[]]].
       * destruct (J_bits0 x o enc1 Hx Hox Hex) as (Hs1 & Hb1). split; [exact Hs1|].
         intros j Hj. rewrite nth_write_bigint.
@@ -582,13 +590,14 @@ Qed.
 
 Definition no_empty_emit (n : node) : Prop := match n with NEmit [] => False | _ => True end.
 
+(* the FULL layout invariant, unconditionally: since the F49 repair a zero-sized written item no longer extends the
+   output, so the length is exactly the end of the last item with bits / filled bank for EVERY program *)
 Theorem layout_full mb banks nodes out items :
-  Forall no_empty_emit nodes ->
   build_output mb banks nodes = Ok (out, items) -> layout_ok banks items out = true.
 Proof.
-  intros Hne H.
-  destruct (build_output_J (fun enc => enc <> []) mb banks nodes out items) as (es & HJ); [|exact H|].
-  { eapply Forall_impl; [|exact Hne]. intros n Hn. destruct n as [| |[|? ?]| | | |]; cbn in *; auto; discriminate. }
+  intros H.
+  destruct (build_output_J (fun _ => True) mb banks nodes out items) as (es & HJ); [|exact H|].
+  { apply Forall_forall. intros n _. destruct n; exact I. }
   destruct HJ. unfold layout_ok. repeat (apply andb_true_iff; split).
   - apply forallb_forall; auto.
   - assumption.
@@ -596,8 +605,6 @@ Proof.
   - unfold length_exact. rewrite J_len0. rewrite (items_end_written items).
     + apply N.eqb_refl.
     + exact J_lbl0.
-    + intros it o enc Hit Eo He. pose proof (J_q0 it enc Hit He) as Hq.
-      destruct (J_bits0 it o enc Hit Eo He) as (Hs & _). rewrite Hs. destruct enc; [congruence|cbn; llia].
 Qed.
 
 (* ================================================================= C. the bad classes are rejected *)
